@@ -231,3 +231,49 @@ def check_bound_raise(run, f, rule='R11.bound'):
                     return True
     run.violation(rule, f, f.qual, 'qubits outside the register (max(qubits) >= self.N) must be rejected')
     return False
+
+
+# --------------------------------------------------------------------------- R13.cache derived container fields
+CONTAINER_MUTATORS = {'append', 'extend', 'insert', 'remove', 'pop', 'add', 'update', 'clear', 'discard'}
+
+
+def check_cache_coherence(run, repo, cls, rule='R13.cache'):
+    """If __init__ derives two container fields from the same source (self.B is a summary of what self.A holds), every
+    block that mutates one of them outside __init__ must mutate the other: otherwise the summary goes stale."""
+    ini = cls.methods.get('__init__')
+    if ini is None:
+        return 0
+    src = {}
+    for st, ctx in walk(ini.node):
+        if isinstance(st, ast.Assign) and isinstance(st.targets[0], ast.Attribute) and norm(st.targets[0].value) == 'self':
+            names = {n.id for n in ast.walk(st.value) if isinstance(n, ast.Name)} & set(ini.params)
+            attrs = {n.attr for n in ast.walk(st.value) if isinstance(n, ast.Attribute) and norm(n.value) == 'self'}
+            src[st.targets[0].attr] = (names, attrs)
+    pairs = []
+    fields = sorted(src)
+    for i, a in enumerate(fields):
+        for b in fields[i + 1:]:
+            if (src[a][0] & src[b][0]) or a in src[b][1] or b in src[a][1]:
+                pairs.append((a, b))
+    if not pairs:
+        return 0
+    muts = {}
+    for name, m in cls.methods.items():
+        if name == '__init__':
+            continue
+        for st, ctx in walk(m.node):
+            for c in (ast.walk(st) if isinstance(st, (ast.Expr, ast.Assign, ast.AugAssign)) else []):
+                if isinstance(c, ast.Call) and isinstance(c.func, ast.Attribute) and c.func.attr in CONTAINER_MUTATORS \
+                        and isinstance(c.func.value, ast.Attribute) and norm(c.func.value.value) == 'self':
+                    muts.setdefault(c.func.value.attr, []).append((m, st, ctx))
+    n = 0
+    for a, b in pairs:
+        if a not in muts and b not in muts:
+            continue
+        for x, y in ((a, b), (b, a)):
+            for m, st, ctx in muts.get(x, []):
+                same_block = any(c2.block is ctx.block for m2, s2, c2 in muts.get(y, []) if m2 is m)
+                n += 1
+                run.check(same_block, rule, m, st, 'self.%s and self.%s are built from the same source in __init__ (one summarises the other); this '
+                          'block changes self.%s without changing self.%s, which goes stale' % (x, y, x, y))
+    return n
